@@ -89,8 +89,9 @@ static void run() {
                                "touched marks + exact-size caller buffer under ASan", ntables);
     vp::Rng rng(a.seed * 8191 + a.shard);
     FamilyOpts fo; fo.max_size = 8;
+    FamilyOpts big; big.max_areas = 6; big.max_size = 20; big.max_regs = 12;   // thorough tier: every 8th table is a larger one
     for (size_t ti = 0; ti < ntables && !vp::too_many_failures(); ti++) {
-        TableD t = gen_table(rng, fo);
+        TableD t = gen_table(rng, (a.thorough() && ti % 8 == 7) ? big : fo);
         rm::Space m; m.init(t);
         for (size_t i = 0; i < t.areas.size(); i++) if (!t.areas[i].membacked) for (uint32_t k = 0; k < t.areas[i].size; k++) m.mem[i][k] = (uint16_t)(0xbeef + k);
         m.load_defaults();
